@@ -129,6 +129,10 @@ class Explorer:
         self.pc.append(term)
 
     def side_condition(self, kind, term):
+        from . import runtime
+        g = runtime.RT.active()
+        if g:      # inside speculatively executed arm(s): the condition is only needed where the arm is really taken
+            term = z3.Implies(z3.And(*[x.term for x in g]), term)
         t = z3.simplify(term)
         if z3.is_true(t):
             return
